@@ -165,6 +165,15 @@ def run_case(ctx, rng, index, casedir):
     gaf = os.path.join(casedir, vary_name(rng, "in.gaf") + ("" if mode == "plain" else ".gz"))
     ggaf.write_gaf(gaf, lines, mode=mode, rng=rng, layout="tiny")
     fa = greads.write_fasta(os.path.join(casedir, "reads.fa"), [(r.name, r.read) for r in recs if r.read is not None], width=rng.choice([60, 80, 1000]))
+    if rng.random() < 0.15:
+        # the reads as a bgzip-compressed FASTA (pysam puts .fai and .gzi next to it)
+        from vf import bgzf as _bgzf
+        with open(fa, "rb") as f:
+            data = f.read()
+        _bgzf.write_bgzf(fa + ".gz", data, rng=rng, layout="standard")
+        os.remove(fa)
+        fa = fa + ".gz"
+        sit["bgzip_fasta_runs"] += 1
     cores = rng.choice([1, 1, 2, 3])
     if cores > 1:
         sit["multi_core_runs"] += 1
